@@ -50,6 +50,9 @@ type c12Rot struct {
 	role string // proposer | challenger
 	to   string
 	by   string // gov | current
+	// upper: the new holder's address is written in upper-case bech32 in the message (the same account;
+	// the holder later signs with the usual lower-case spelling)
+	upper bool
 }
 
 func newC12L1Sys() *c12L1Sys {
@@ -88,15 +91,17 @@ func (y *c12L1Sys) Letters(s *c12L1State) []engine.Letter {
 	for b := 0; b < 2; b++ {
 		for _, to := range []string{"proposer", "proposer2"} {
 			for _, by := range []string{"gov", "current"} {
-				ls = append(ls, engine.Letter{Name: fmt.Sprintf("UpdateProposer(b%d,to=%s,by=%s)", b+1, to, by), Data: c12Rot{b, "proposer", to, by}})
+				ls = append(ls, engine.Letter{Name: fmt.Sprintf("UpdateProposer(b%d,to=%s,by=%s)", b+1, to, by), Data: c12Rot{b, "proposer", to, by, false}})
 			}
 		}
 		for _, to := range []string{"challenger", "challenger2"} {
 			for _, by := range []string{"gov", "current"} {
-				ls = append(ls, engine.Letter{Name: fmt.Sprintf("UpdateChallenger(b%d,to=%s,by=%s)", b+1, to, by), Data: c12Rot{b, "challenger", to, by}})
+				ls = append(ls, engine.Letter{Name: fmt.Sprintf("UpdateChallenger(b%d,to=%s,by=%s)", b+1, to, by), Data: c12Rot{b, "challenger", to, by, false}})
 			}
 		}
 	}
+	ls = append(ls, engine.Letter{Name: "UpdateProposer(b1,to=PROPOSER2-IN-UPPER-CASE,by=gov)", Data: c12Rot{0, "proposer", "proposer2", "gov", true}})
+	ls = append(ls, engine.Letter{Name: "UpdateChallenger(b1,to=CHALLENGER2-IN-UPPER-CASE,by=gov)", Data: c12Rot{0, "challenger", "challenger2", "gov", true}})
 	return ls
 }
 
@@ -117,7 +122,11 @@ func (y *c12L1Sys) Step(s *c12L1State, l engine.Letter) (*c12L1State, string, *e
 		if d.by == "current" {
 			by = s.addr(s.prop[d.b])
 		}
-		res = s.w.Deliver(ctx, ophosttypes.NewMsgUpdateProposer(by, uint64(d.b+1), s.addr(d.to)))
+		to := s.addr(d.to)
+		if d.upper {
+			to = strings.ToUpper(to)
+		}
+		res = s.w.Deliver(ctx, ophosttypes.NewMsgUpdateProposer(by, uint64(d.b+1), to))
 		if res.OK() {
 			c.prop[d.b] = d.to
 		}
@@ -126,7 +135,11 @@ func (y *c12L1Sys) Step(s *c12L1State, l engine.Letter) (*c12L1State, string, *e
 		if d.by == "current" {
 			by = s.addr(s.chal[d.b])
 		}
-		res = s.w.Deliver(ctx, ophosttypes.NewMsgUpdateChallenger(by, uint64(d.b+1), s.addr(d.to)))
+		to := s.addr(d.to)
+		if d.upper {
+			to = strings.ToUpper(to)
+		}
+		res = s.w.Deliver(ctx, ophosttypes.NewMsgUpdateChallenger(by, uint64(d.b+1), to))
 		if res.OK() {
 			c.chal[d.b] = d.to
 		}
@@ -231,7 +244,10 @@ type c12L2Sys struct {
 
 var c12L2Signers = []string{"authority", "admin", "admin2", "e1", "e2", "e3", "stranger"}
 
-type c12SetAdmin struct{ to string }
+type c12SetAdmin struct {
+	to    string
+	upper bool // written in upper-case bech32 in the params (the same account)
+}
 type c12SetExecs struct{ to []string }
 type c12SetInfo struct{ client string }
 type c12Plan struct{ execs []string }
@@ -299,8 +315,9 @@ func (s *c12L2State) isExec(name string) bool {
 
 func (y *c12L2Sys) Letters(s *c12L2State) []engine.Letter {
 	ls := []engine.Letter{
-		{Name: "SetAdmin(admin2)", Data: c12SetAdmin{"admin2"}},
-		{Name: "SetAdmin(admin)", Data: c12SetAdmin{"admin"}},
+		{Name: "SetAdmin(admin2)", Data: c12SetAdmin{"admin2", false}},
+		{Name: "SetAdmin(admin)", Data: c12SetAdmin{"admin", false}},
+		{Name: "SetAdmin(ADMIN2-IN-UPPER-CASE)", Data: c12SetAdmin{"admin2", true}},
 		{Name: "SetExecutors(e1)", Data: c12SetExecs{[]string{"e1"}}},
 		{Name: "SetExecutors(e2)", Data: c12SetExecs{[]string{"e2"}}},
 		{Name: "SetExecutors(e1,e2)", Data: c12SetExecs{[]string{"e1", "e2"}}},
@@ -353,6 +370,9 @@ func (y *c12L2Sys) Step(s *c12L2State, l engine.Letter) (*c12L2State, string, *e
 		}
 		if a, ok := d.(c12SetAdmin); ok {
 			p.Admin = s.addr(a.to)
+			if a.upper {
+				p.Admin = strings.ToUpper(p.Admin)
+			}
 			c.admin = a.to
 		} else {
 			e := d.(c12SetExecs)
